@@ -739,7 +739,7 @@ func runC32(c *core.Ctx) {
 		t.faithful = o.handshakeOK && o.appBytes > 0
 		if sc.Synth != "" {
 			// the hand-built flight ends with ServerHelloDone: faithful = the client answered with its key exchange flight
-			t.faithful = o.reached && o.eutWrote > 600
+			t.faithful = o.reached && o.eutWrote > 450 // ClientHello (~200 bytes) + ClientKeyExchange with a 2048-bit share
 		}
 		if t.faithful {
 			c.Count("transcripts_replayed_faithfully", 1)
